@@ -95,6 +95,25 @@ theorem capacity (s : IncVal) (height : Nat) (txs : List TxId) (hm : 0 < s.max) 
       · simp; omega
       · simp; omega
 
+/-- …for every sequence of blocks of arbitrary heights (contiguous, gapped, repeated) after construction. -/
+theorem capacity_always (n : Int) (blocks : List (Nat × List TxId)) :
+    let s := blocks.foldl (fun s b => s.addBlock b.1 b.2) (new n)
+    s.blocks.length ≤ s.max ∧ s.max = (new n).max := by
+  have hpos : 0 < (new n).max := by unfold new; simp only; split <;> omega
+  have gen : ∀ (bs : List (Nat × List TxId)) (s : IncVal), 0 < s.max → s.blocks.length ≤ s.max →
+      (bs.foldl (fun s b => s.addBlock b.1 b.2) s).blocks.length ≤ (bs.foldl (fun s b => s.addBlock b.1 b.2) s).max ∧
+      (bs.foldl (fun s b => s.addBlock b.1 b.2) s).max = s.max := by
+    intro bs
+    induction bs with
+    | nil => intro s _ h; exact ⟨h, rfl⟩
+    | cons b r ih =>
+      intro s hm h
+      have hc := capacity s b.1 b.2 hm h
+      have := ih (s.addBlock b.1 b.2) (by rw [hc.2]; exact hm) hc.1
+      simp only [List.foldl_cons]
+      exact ⟨this.1, this.2.trans hc.2⟩
+  exact gen blocks (new n) hpos (by simp [new])
+
 /-- Feeding blocks of consecutive heights `h, h+1, …`. -/
 def feed (s : IncVal) (h : Nat) : List (List TxId) → IncVal
   | [] => s
